@@ -9,6 +9,8 @@ checks = {
    text='Held on the executions produced: outcome storms, all/selected linear extensions of the six-gate connection-death order, unhooked mass deaths, stream exhaustion. A lost or duplicated reply on any (client, stream) in those runs is reported with the history and a goroutine dump. Says nothing about schedules the workloads did not produce.', ref='2/C01'),
  'C02': dict(cat='exploration', tech='runtime monitoring: token/prepared-id/kind identity oracle over recorded histories with unique tokens',
    text='Every reply observed (tens of thousands per quick run) is matched to the request sent on that (client, stream) through the unique token the backend echoes; covers equal stream ids on many clients, permuted backend replies, >10x recycling of all 2048 backend stream ids, exhaustion bursts, failover storms and concurrent re-prepares with a widened window.', ref='2/C02'),
+ 'C03': dict(cat='exploration', tech='runtime monitoring: byte comparison of raw frames recorded at the client and backend boundaries (nothing decoded)',
+   text='3000 (quick) / 30000 (thorough) generated request frames over version x compression x opcode x option flags x header decorations x size class x content class, each answered with a generated response of every RESULT kind / ERROR code with tracing, warnings, payload; both directions compared byte for byte except the stream id.', ref='2/C03'),
  'C04': dict(cat='fault_enumeration', tech='runtime monitoring: fault enumeration with an oracle on the backend arrival log (no arrival k+1 unless outcome k cannot have applied the request) and on the final client frame',
    text='Nine classes of requests that are not positively idempotent by construction (20 statement forms; prepared here / by another client / never through the proxy / forgotten by the host; batches; graph payload) x every complete outcome sequence for 1-2 hosts and PRNG walks for 3-4, plus connection loss after a partial reply and before the request is read.', ref='2/C04'),
  'C05': dict(cat='fault_enumeration', tech='runtime monitoring: fault enumeration of per-attempt outcomes against an executable model of the documented policy',
@@ -23,6 +25,8 @@ checks = {
    text='Exhaustive product of (current keyspace, kind, qualifier, table, selectors, trailing clause) = 316 800 tuples against IsQueryHandled in both tiers; PRNG sample end to end as QUERY and PREPARE+EXECUTE on a live proxy: the token reaches a backend iff not expected handled, and no system.local/peers read appears in any non-control backend log.', ref='2/C09'),
  'C10': dict(cat='exploration', tech='runtime monitoring: reference model of the virtual tables computed from the configuration; cells decoded with the reference datacodec; cross-instance comparison',
    text='Generated peer lists (0-16 IPv4/IPv6, self in/out, DC/tokens present or not, DSE or not) x 30 selector lists as QUERY and PREPARE+EXECUTE on v3 and v4; one real Proxy per list entry for mutual consistency; restart and cross-process host-id stability.', ref='2/C10'),
+ 'C11': dict(cat='exploration', tech='runtime monitoring of pure functions: differential test of the partial codecs against the reference codec on generated, truncated, mutated and random bodies',
+   text='20k (quick) / 500k (thorough) reference-encoded QUERY/EXECUTE/BATCH messages over all five versions: partial decode fields == reference decode, partial re-encode == input bytes; every prefix, single-field mutations and random bytes: error or bounded success, never a panic or over-read.', ref='2/C11'),
  'C13': dict(cat='exploration', tech='runtime monitoring: per-stream reply counting, independently computed version predicate, backend-log oracle for forwarding',
    text='All known version bytes x opcodes x configured max versions; all 250 unknown version bytes; STARTUP option maps; all orders of OPTIONS/STARTUP/REGISTER/QUERY up to length 4, awaited and pipelined.', ref='2/C13'),
  'C14': dict(cat='exploration', tech='runtime monitoring: exactly-once counting of uniquely identified events over recorded client frames, sentinel-event logical barrier',
